@@ -21,7 +21,12 @@ NoOp == [op |-> "none"]
 Rec == ndJsonDeserialize(IOEnv.TRACE)
 
 \* IF form on purpose: with `c \/ (TLCSet(..) /\ FALSE)` TLC would evaluate both disjuncts
-G(id, c) == IF c THEN TRUE ELSE (TLCSet(2, TLCGet(2) \cup {<<l, id>>}) /\ FALSE)
+G(id, c) == IF c THEN TRUE ELSE (TLCSet(2, TLCGet(2) \cup {<<l, id, {}>>}) /\ FALSE)
+\* ... with properties implicated by the context besides those the guard id stands for
+GX(id, extra, c) == IF c THEN TRUE ELSE (TLCSet(2, TLCGet(2) \cup {<<l, id, extra>>}) /\ FALSE)
+\* whatever goes wrong about a stream-attached actor also concerns C13 ("messages sent to its address are handled too",
+\* "an explicit stop or handle drop terminates it")
+SX(a) == IF a \in Actor /\ act[a].stream THEN {"C13"} ELSE {}
 IsEvent(e) == l <= Len(Rec) /\ Rec[l].ev = e /\ l' = l + 1
 E == Rec[l]
 
@@ -74,7 +79,7 @@ T_Block == /\ IsEvent("block")
               \* (`woken`: the task returned Pending with its own wake-up already pending - a cooperative yield inside the
               \* library; it stays runnable, so nothing is claimed about what it waits for)
               /\ IF ~Known(t) \/ yl \/ ("woken" \in DOMAIN E /\ E.woken) \/ ~CanStep(t) \/ (t \in Tasker /\ cli[t].stage = "reglock") THEN TRUE
-                 ELSE IF t \in Client THEN G("blk." \o cli[t].stage, FALSE)
+                 ELSE IF t \in Client THEN GX("blk." \o cli[t].stage, SX(cli[t].ta), FALSE)
                  ELSE IF t \in DOMAIN tmr THEN G(IF ~Terminated(tmr[t].a) /\ LiveH(tmr[t].a, StrongKinds) THEN "blk.timer.alive" ELSE "blk.timer", FALSE)
                  ELSE IF act[t].pc = "idle" THEN G(IdleReason("blk.loop.", t), FALSE)
                  ELSE IF act[t].pc = "handling" THEN G("blk.loop.handling", FALSE)
@@ -166,11 +171,13 @@ ResGuard(op, L) == IF L.a \in Actor /\ act[L.a].pc = "failed"
                    THEN (IF op \in {"stopped", "running", "try_from_registry", "already_running"} THEN "oe.res." \o op \o ".failed"
                          ELSE "oe.res.failed." \o act[L.a].why \o (IF op \in {"await", "await_ref", "halt", "try_halt"} THEN ".await" ELSE "") \o RstStartErr(L.a))
                    ELSE "oe.res." \o op
+\* (a call / ping that comes back with an error although a stop had been accepted only later: C04's drain barrier)
+StopCtx2(op, L) == IF op \in {"call", "ping"} /\ L.a \in Actor /\ hst.stopAcc[L.a] THEN {"C04"} ELSE {}
 LastMatchesCtx(op, L, sfx) ==
-                      /\ G(IF sfx # "" THEN "oe.res." \o op \o sfx ELSE ResGuard(op, L), L.res = E.res)
+                      /\ GX(IF sfx # "" THEN "oe.res." \o op \o sfx ELSE ResGuard(op, L), SX(L.a) \cup StopCtx2(op, L), L.res = E.res)
                       /\ G("oe.val." \o op, L.res \notin {"ok", "some"} \/ (L.pos = E.pos /\ L.inst = E.inst))
                       /\ G("oe.actor." \o op, E.a = "*" \/ L.a = E.a)
-LastMatches(op, L) == /\ G(ResGuard(op, L), L.res = E.res)
+LastMatches(op, L) == /\ GX(ResGuard(op, L), SX(L.a) \cup StopCtx2(op, L), L.res = E.res)
                       /\ G("oe.val." \o op, L.res \notin {"ok", "some"} \/ (L.pos = E.pos /\ L.inst = E.inst))
                       /\ G("oe.actor." \o op, E.a = "*" \/ L.a = E.a)
 T_OpEnd == /\ IsEvent("op_end")
@@ -186,7 +193,7 @@ T_OpEnd == /\ IsEvent("op_end")
                  ELSE IF cli[c].stage = "idle"
                  THEN LastMatches(cli[c].op, cli[c].last) /\ UNCHANGED vars
                  ELSE /\ ~(cli[c].stage = "flush" /\ cli[c].op = "call")     \* routing: that step is silent
-                      /\ G("oe.ready." \o cli[c].op, ClientContEnabled(c))
+                      /\ GX("oe.ready." \o cli[c].op, SX(cli[c].ta), ClientContEnabled(c))
                       /\ ClientCont(c) /\ cur' = cur /\ yl' = FALSE
                       /\ G(IF cli[c].stage = "reglock" /\ cli[c].arg.ty \in DOMAIN reg.ent /\ act[reg.ent[cli[c].arg.ty]].pc = "failed" THEN "oe.done.failed" ELSE "oe.done",
                            cli'[c].stage = "idle")
@@ -238,13 +245,13 @@ T_HBegin == /\ IsEvent("h_begin")
                /\ G("hb.cur", cur = a /\ ~yl)
                \* (a handler running on an actor that has FAILED: named after the failure, e.g. a timeout that should have been fatal)
                \* (... or while the specification's loop is about to process a restart / stop request it took out of the mailbox)
-               /\ G(IF act[a].pc = "failed" THEN "hb.phase.failed." \o act[a].why \o RstStartErr(a)
+               /\ GX(IF act[a].pc = "failed" THEN "hb.phase.failed." \o act[a].why \o RstStartErr(a)
                     ELSE IF act[a].pc = "dequeued" /\ act[a].curp.k \in {"restart", "stop"} THEN "hb.phase." \o act[a].curp.k \o "." \o act[a].curp.src
                     ELSE IF act[a].pc = "idle" /\ act[a].mq # <<>> /\ Head(act[a].mq).k \in {"restart", "stop"} THEN "hb.phase." \o Head(act[a].mq).k \o "." \o Head(act[a].mq).src
                     ELSE "hb.phase." \o E.src \o (IF E.src = "broker" /\ act[a].inc > 0 THEN ".restarted"
                                                      ELSE IF E.src = "timer" /\ act[a].pc = "idle" /\ ~ChanOpen(a) THEN ".closed" ELSE ""),
-                    act[a].pc = "dequeued" /\ act[a].curp.k = "task" /\ act[a].curp.rs # "ping")
-               /\ G("hb.fifo." \o E.src, act[a].curp.m = E.m /\ act[a].curp.src = E.src)
+                    SX(a), act[a].pc = "dequeued" /\ act[a].curp.k = "task" /\ act[a].curp.rs # "ping")
+               /\ GX("hb.fifo." \o E.src, SX(a), act[a].curp.m = E.m /\ act[a].curp.src = E.src)
                /\ G("hb.inst", act[a].inst = E.inst /\ act[a].inc = E.inc)
                /\ RunLoop(a)
 
@@ -402,5 +409,5 @@ BlameOf(g) == IF g \in DOMAIN Blame THEN Blame[g] ELSE {}
 Accepted ==
   \/ TLCGet(3) = Len(Rec) + 1
   \/ Print(<<"REJECT", TLCGet(3), ToJson(Rec[TLCGet(3)]), ToJson(FailedAt(TLCGet(3))),
-             ToJson(UNION {BlameOf(g) : g \in FailedAt(TLCGet(3))})>>, FALSE)
+             ToJson(UNION ({BlameOf(g) : g \in FailedAt(TLCGet(3))} \cup {x[3] : x \in {y \in TLCGet(2) : y[1] = TLCGet(3)}}))>>, FALSE)
 =============================================================================
